@@ -35,13 +35,29 @@ ModelAt(f0, c, pt) ==
   ELSE IF c.fault.kind \in {"crash_indexes", "crash_info", "bad_metadata"}
        THEN [AppendChunks(started, c.dest, c.chunks, Len(c.chunks)) EXCEPT !.nodes[c.dest].tabs = AllTabs]
   ELSE started      \* crash_tables etc.: not compared exactly (see ExactPoint)
+\* PROCESS DEATH (fault kind "kill"): the process ended right before the writer opened a file for the at-th time.  Every
+\* step opens and closes the file itself, so the file on disk is the result of a PREFIX of the steps - whichever; Layer A
+\* says which one (open 1 = Prepare, 2 = Tables, 3+i = chunk i, then the index/attribute step).
+Started(f0, c) == Tables(Prepare(f0, c.dest, c.mode), c.dest)
+KillStages(f0, c) == {f0, Prepare(f0, c.dest, c.mode)}
+                     \cup {AppendChunks(Started(f0, c), c.dest, c.chunks, i) : i \in 0..Len(c.chunks)}
+KillStage(f0, c) == IF c.fault.at = 1 THEN f0
+                    ELSE IF c.fault.at = 2 THEN Prepare(f0, c.dest, c.mode)
+                    ELSE AppendChunks(Started(f0, c), c.dest, c.chunks, IF c.fault.at - 3 < Len(c.chunks) THEN c.fault.at - 3 ELSE Len(c.chunks))
+OutcomeOK(c, out) == IF c.fault.kind = "kill"
+                     THEN (IF c.fault.at <= 3 + Len(c.chunks) THEN out = "killed" ELSE out \in {"ok", "killed"})
+                     ELSE out = (IF c.fault.kind = "none" THEN "ok" ELSE "error")
 ExactPoint(c, pt) == pt.at = "pull" \/ pt.outcome = "ok" \/ c.fault.kind \in {"iter_raise", "invalid", "crash_indexes", "crash_info", "bad_metadata"}
 ExpectedOutcome(c) == IF c.fault.kind = "none" THEN "ok" ELSE "error"
 
 \* clauses for one call; f0 = MODEL file before the call
 CallClauses(Paths, f0, c, o) ==
   LET pre == f0 IN
-  << <<"outcomeAsExpected", o.points[Len(o.points)].at = "end" /\ o.points[Len(o.points)].outcome = ExpectedOutcome(c)>>,
+  << <<"outcomeAsExpected", o.points[Len(o.points)].at = "end" /\ OutcomeOK(c, o.points[Len(o.points)].outcome)>>,
+     <<"killedStateIsAPrefixOfTheSteps", o.points[Len(o.points)].outcome # "killed" \/
+          \E s \in KillStages(f0, c) : View(FileOf(o.points[Len(o.points)].file, Paths)) = View(s)>>,
+     <<"drift:killStage", o.points[Len(o.points)].outcome # "killed" \/
+          View(FileOf(o.points[Len(o.points)].file, Paths)) = View(KillStage(f0, c))>>,
      <<"invalidRejected", c.fault.kind = "invalid" => o.points[Len(o.points)].outcome = "error">>,
      <<"stateAsModel", All(o.points, LAMBDA pt : ~ExactPoint(c, pt) \/ View(FileOf(pt.file, Paths)) = View(ModelAt(f0, c, pt)))>>,
      <<"destNotRecognisedUnlessDone", All(o.points, LAMBDA pt :
@@ -76,7 +92,8 @@ ProducerClauses(e) ==
       pre == FileOf(e.obs.before, Paths)
       post == FileOf(e.obs.after, Paths)
   IN
-  << <<"outcomeAsExpected", e.obs.outcome = (IF e.obs.fired THEN "error" ELSE "ok")>>,
+  << <<"outcomeAsExpected", IF e.case.fault.kind = "kill" THEN e.obs.outcome \in {"ok", "killed"}
+                             ELSE e.obs.outcome = (IF e.obs.fired THEN "error" ELSE "ok")>>,
      <<"destNotRecognisedUnlessDone", e.obs.outcome = "ok" \/ DestNotRecognised(pre, post, e.case.dest)>>,
      <<"neighboursIntact", NeighboursIntact(View(pre), View(post), e.case.dest)>>,
      <<"recognitionAnswers", e.obs.is_cooler_raised = "">>,
